@@ -111,6 +111,13 @@ def work(item):
                     return curve_value(), curve_value(scale=k), [t, u, v]
                 if variant == "reverse":
                     return curve_value(), -curve_value(reverse=True), [t, u, v]
+                if variant == "speed_sq":
+                    # non-uniform reparametrisation with a NEGATIVE parameter: t = s**2, s running from 0 down to -sqrt(hi)
+                    # (same points, same orientation; the parametrisation speed 2 s is negative all along)
+                    tot = sp.S.Zero
+                    for traj, (p, lo, hi) in reg["segments"]:
+                        tot += f_curve(field, [sp.sympify(c).subs(p, p**2) for c in traj], (p, 0, -sp.sqrt(hi)))
+                    return curve_value(), tot, [t, u, v]
             if theorem == "gauss":
                 a, b, c = sp.symbols("a b c", positive=True)
                 comps, coeffs = generic_field(C, deg, 3)
@@ -124,6 +131,23 @@ def work(item):
                 for surf, l1, l2 in faces:
                     tot += AN.flux_across_surface(field, surf, l1, l2)
                 return tot, vol, [u, v]
+            if theorem == "gauss_curv":
+                # divergence theorem in the library's curvilinear systems, against the textbook flux of a radial (+ axial) field
+                R, h = sp.symbols("R h", positive=True)
+                kind = "SPHERICAL" if region == "ball" else "CYLINDRICAL"
+                S_ = CoordinateSystem(getattr(CoordinateSystem.System, kind))
+                q1, q2, q3 = S_.coord_system.base_scalars()
+                pc = [sp.Symbol(f"p{i}", real=True) for i in range(deg + 1)]
+                qc = [sp.Symbol(f"q{i}", real=True) for i in range(deg + 1)]
+                prad = lambda r_: sum(c_ * r_**i for i, c_ in enumerate(pc))
+                qax = lambda z_: sum(c_ * z_**i for i, c_ in enumerate(qc))
+                if kind == "SPHERICAL":          # (r, azimuth, polar): F = p(r) e_r through the sphere r = R
+                    field = VectorField.from_vector(Vector([prad(q1), 0, 0], S_))
+                    vol = AN.flux_across_volume_boundary(field, (0, R), (0, 2 * sp.pi), (0, sp.pi))
+                    return 4 * sp.pi * R**2 * prad(R), vol, [u, v]
+                field = VectorField.from_vector(Vector([prad(q1), 0, qax(q3)], S_))       # F = p(r) e_r + q(z) e_z through the can r <= R, 0 <= z <= h
+                vol = AN.flux_across_volume_boundary(field, (0, R), (0, 2 * sp.pi), (0, h))
+                return 2 * sp.pi * R * h * prad(R) + sp.pi * R**2 * (qax(h) - qax(0)), vol, [u, v]
             raise ValueError(item)
         lhs, rhs, params = with_timeout(body, 600)
     except ItemTimeout:
@@ -194,7 +218,26 @@ try:
             s1 = tuple(sp.sympify(x).subs(sizes) for x in reg["s1"]); s2 = tuple(sp.sympify(x).subs(sizes) for x in reg["s2"])
             l = curve(); r = num(fs(field, [sp.sympify(c).subs(sizes) for c in reg["surface"]], s1, s2))
         elif variant == "speed": l = curve(); r = curve(scale=sp.Rational(5, 2))
+        elif variant == "speed_sq":
+            l = curve(); tot = 0
+            for traj, (p, lo, hi) in segs:
+                hi = sp.sympify(hi).subs(sizes)
+                tot += fc(field, [sp.sympify(c).subs(sizes).subs(p, p**2) for c in traj], (p, 0, -sp.sqrt(hi)))
+            r = num(tot)
         else: l = curve(); r = -curve(reverse=True)
+    elif theorem == "gauss_curv":
+        kind = "SPHERICAL" if region == "ball" else "CYLINDRICAL"
+        S_ = CoordinateSystem(getattr(CoordinateSystem.System, kind)); q1, q2, q3 = S_.coord_system.base_scalars()
+        R, h = 2, sp.Rational(3, 2)
+        pc = [random.randint(-4, 4) for _ in range(deg + 1)]; qc = [random.randint(-4, 4) for _ in range(deg + 1)]
+        prad = lambda r_: sum(c_ * r_**i for i, c_ in enumerate(pc)); qax = lambda z_: sum(c_ * z_**i for i, c_ in enumerate(qc))
+        if kind == "SPHERICAL":
+            r = num(AN.flux_across_volume_boundary(VectorField.from_vector(Vector([prad(q1), 0, 0], S_)), (0, R), (0, 2 * sp.pi), (0, sp.pi)))
+            l = num(4 * sp.pi * R**2 * prad(R))
+        else:
+            r = num(AN.flux_across_volume_boundary(VectorField.from_vector(Vector([prad(q1), 0, qax(q3)], S_)), (0, R), (0, 2 * sp.pi), (0, h)))
+            l = num(2 * sp.pi * R * h * prad(R) + sp.pi * R**2 * (qax(h) - qax(0)))
+        comps = (pc, qc)
     else:
         a, b, c = 3, sp.Rational(3, 2), 2
         r = num(AN.flux_across_volume_boundary(field, (0, a), (0, b), (0, c)))
@@ -220,12 +263,16 @@ def run(ctx):
             for theorem in ("stokes", "green"):
                 items.append((theorem, region, deg, "theorem", timeout))
         items.append(("gauss", "box", deg, "theorem", timeout))
+        items.append(("gauss_curv", "ball", deg, "theorem", timeout))
+        items.append(("gauss_curv", "cylinder", deg, "theorem", timeout))
         items.append(("stokes", "disc_xy", deg, "theorem", timeout))
         items.append(("green", "disc_xy", deg, "theorem", timeout))
         items.append(("green", "circle_swapped", deg, "theorem", timeout))
         items.append(("green", "circle", deg, "theoremz", timeout))
         items.append(("green", "rectangle", deg, "theoremz", timeout))
         items.append(("green", "rectangle_swapped", deg, "theorem", timeout))
+    items.append(("green", "rectangle", 2, "speed_sq", timeout))
+    items.append(("stokes", "rectangle", 2, "speed_sq", timeout))
     for theorem in ("stokes", "green"):
         for region in (("circle", "ellipse", "rectangle") if thorough else ("circle", "rectangle")):
             items.append((theorem, region, 2, "speed", timeout))
@@ -242,7 +289,7 @@ def run(ctx):
                              "analysis.flux_across_surface_boundary", "analysis.flux_across_volume_boundary", "geometry.elements.*", "geometry.normals.*", "operators.curl_operator/divergence_operator"]
     ctx.bounds = [f"polynomial fields of total degree <= {max(degs)} (all coefficients symbolic)", "regions: circle R, ellipse a,b, rectangle a x b, box a x b x c (symbolic sizes > 0)",
                   "reparametrisation speed k > 0 symbolic", f"z3 timeout {timeout} ms; SymPy integration limit 600 s"]
-    ctx.outside = ["non-polynomial fields (the trigonometric family of the design is not closed-form integrable by SymPy on circles; not attempted)", "curvilinear coordinate systems",
+    ctx.outside = ["non-polynomial fields (the trigonometric family of the design is not closed-form integrable by SymPy on circles; not attempted)", "curvilinear coordinate systems except the divergence theorem for radial (+ axial) polynomial fields on a ball / cylinder",
                    "regions other than the four listed"]
     ctx.trusted = ["z3 nlsat", "SymPy integrate/simplify are part of the code under test, their output is judged, not trusted"]
     res = pmap(work, items, chunk=1)
